@@ -1,0 +1,22 @@
+//go:build verif
+// +build verif
+
+package xuperos
+
+import (
+	"github.com/patrickmn/go-cache"
+
+	"github.com/xuperchain/xupercore/kernel/engines/xuperos/common"
+	"github.com/xuperchain/xupercore/kernel/engines/xuperos/miner"
+)
+
+// VerifNewChain is exported only under the verif build tag: it wraps an already assembled
+// chain context (ledger, state machine, contract manager ...) into a Chain, as LoadChain does
+// after initChainCtx, so that an external harness can drive the real PreExec / SubmitTx on
+// components it opened itself. The miner loop is not started.
+func VerifNewChain(ctx *common.ChainCtx) *Chain {
+	c := &Chain{ctx: ctx, log: ctx.XLog}
+	c.miner = miner.NewMiner(ctx)
+	c.txIdCache = cache.New(TxIdCacheExpired, TxIdCacheGCInterval)
+	return c
+}
